@@ -145,11 +145,16 @@ Example c07_instance :
              /\ all_finished st = true /\ hazard st = true.
 Proof. eexists. split; [vm_compute; reflexivity|split; vm_compute; reflexivity]. Qed.
 
-(* non-vacuity of the patched theorems: A<->B, goroutine 1 blocks on the lock goroutine 0 holds,
-   both complete, nobody saw an unfinished foreign schema *)
+(* non-vacuity of the patched theorems: A<->B, both goroutines complete, nobody saw an unfinished
+   foreign schema; and mu.Lock() really blocks: after goroutine 0 took the lock, goroutine 1
+   (also past its first Load) cannot step *)
 Example c07_patched_instance :
-  exists ps, prun cfg_ab (pinitial [[0]; [1]])
+  (exists ps, prun cfg_ab (pinitial [[0]; [1]])
                [0;0;0;1;1;0;0;0;0;0;0;0;0;0;0;0;0;0;0;0;0;0;1;1;1;1;1;1] = Some ps
-             /\ all_finished (p_st ps) = true /\ hazard (p_st ps) = false /\ p_lock ps = None
-             /\ pstep cfg_ab (mk_p (p_st ps) (Some 0)) 1 = None.
-Proof. eexists. split; [vm_compute; reflexivity|repeat split; vm_compute; reflexivity]. Qed.
+             /\ all_finished (p_st ps) = true /\ hazard (p_st ps) = false /\ p_lock ps = None)
+  /\ (exists ps, prun cfg_ab (pinitial [[0]; [1]]) [0;0;0;1;1] = Some ps
+                 /\ p_lock ps = Some 0 /\ pstep cfg_ab ps 1 = None /\ pstep cfg_ab ps 0 <> None).
+Proof.
+  split; eexists; (split; [vm_compute; reflexivity|]); repeat split; try (vm_compute; reflexivity).
+  vm_compute. discriminate.
+Qed.
